@@ -740,4 +740,94 @@ theorem updReplaceAlive_inv13 {s s' : State} {k ai ri rw cc dp : Nat}
       simp only; omega
   · cases h
 
+theorem closeBlobbers_effect : ∀ {l : List BA} {per : List (Nat × Nat)} {s s' : State},
+    closeBlobbers s l per = some s' →
+    s'.allocs = s.allocs ∧ s'.nallocs = s.nallocs ∧
+    (∀ i, (s'.blobbers i).map (·.allocated) = (s.blobbers i).map (fun b => b.allocated - ((baSum BA.size i l : Nat) : Int))) ∧
+    (∀ i, (s'.sps i).map (fun sp => sp.offers + baSum BA.offer i l) = (s.sps i).map (·.offers)) ∧
+    (∀ i, s.blobbers i = none → cnt i l = 0) ∧ (∀ i, s.sps i = none → cnt i l = 0) := by
+  intro l
+  induction l with
+  | nil =>
+    intro per s s' h
+    cases per with
+    | nil =>
+      simp only [closeBlobbers] at h; cases h
+      refine ⟨rfl, rfl, fun i => ?_, fun i => ?_, fun _ _ => rfl, fun _ _ => rfl⟩
+      · cases s.blobbers i <;> simp [baSum]
+      · cases s.sps i <;> simp [baSum]
+    | cons p ps => simp [closeBlobbers] at h
+  | cons d ds ih =>
+    intro per s s' h
+    cases per with
+    | nil => simp [closeBlobbers] at h
+    | cons p ps =>
+      obtain ⟨dp, cr⟩ := p
+      simp only [closeBlobbers] at h
+      split at h
+      · rename_i b sp hb hsp
+        split at h
+        · cases h
+        · rename_i hg
+          split at h
+          · cases h
+          · obtain ⟨e1, e2, eb, eo, en1, en2⟩ := ih h
+            have hoff : d.offer ≤ sp.offers := by omega
+            refine ⟨e1, e2, fun i => ?_, fun i => ?_, fun i hn => ?_, fun i hn => ?_⟩
+            · rw [eb i]
+              by_cases hi : i = d.blobber
+              · subst hi
+                rw [view_set_same, hb]
+                simp only [Option.map_some, baSum, if_true]
+                congr 1; omega
+              · have hdi : ¬ d.blobber = i := fun e => hi e.symm
+                rw [view_set_other _ _ _ hi]
+                simp only [baSum, hdi, if_false, Nat.zero_add]
+            · have := eo i
+              by_cases hi : i = d.blobber
+              · subst hi
+                rw [view_set_same] at this
+                rw [hsp]
+                cases hs' : s'.sps d.blobber with
+                | none => rw [hs'] at this; cases this
+                | some sp' =>
+                  rw [hs'] at this
+                  simp only [Option.map_some, Option.some.injEq, baSum, if_true] at this ⊢
+                  omega
+              · have hdi : ¬ d.blobber = i := fun e => hi e.symm
+                rw [view_set_other _ _ _ hi] at this
+                simp only [baSum, hdi, if_false, Nat.zero_add]
+                exact this
+            · have hij : ¬ i = d.blobber := by intro e; subst e; rw [hb] at hn; cases hn
+              have hdi : ¬ d.blobber = i := fun e => hij e.symm
+              simp only [cnt, hdi, if_false, Nat.zero_add]
+              apply en1; simp only [Map.set_other _ _ hij]; exact hn
+            · have hij : ¬ i = d.blobber := by intro e; subst e; rw [hsp] at hn; cases hn
+              have hdi : ¬ d.blobber = i := fun e => hij e.symm
+              simp only [cnt, hdi, if_false, Nat.zero_add]
+              apply en2; simp only [Map.set_other _ _ hij]; exact hn
+      · cases h
+
+theorem close_inv13 {s s' : State} {fin : Bool} {k : Nat} {c : Caller} {X : Nat} {per : List (Nat × Nat)}
+    (h : close s fin k c X per = .ok s') (hi : Inv13 s) : Inv13 s' := by
+  unfold close at h
+  split at h
+  · cases h
+  · rename_i a ha
+    have hk := hi.1.lt ha
+    simp only at h
+    repeat' (split at h)
+    all_goals (first | (cases h; done) | skip)
+    all_goals
+      cases h
+      subst_pay
+      obtain ⟨e1, e2, eb, eo, en1, en2⟩ := closeBlobbers_effect ‹closeBlobbers _ _ _ = some _›
+      refine inv13_set_delta (oa' := none) hk (by simp only; rw [e1]) (by simp only; exact e2) (fun i => ?_) (fun i => ?_) hi
+      · refine ⟨0, baSum BA.size i a.bas, ?_, ?_, fun hn => ⟨rfl, baSum_of_cnt_zero (en1 i hn)⟩⟩
+        · rw [ha]; simp only [allocSum]; omega
+        · simp only; rw [eb i]; congr 1; funext b; omega
+      · refine ⟨0, baSum BA.offer i a.bas, ?_, ?_, fun hn => ⟨rfl, baSum_of_cnt_zero (en2 i hn)⟩⟩
+        · rw [ha]; simp only [allocSum]; omega
+        · simp only [Nat.add_zero]; exact eo i
+
 end ZChain.Storage
